@@ -1,4 +1,5 @@
 import WpModel.Drive.Loop
 import WpModel.Drive.Break
+import WpModel.Drive.Paginate
 
-def main : IO Unit := Wp.Drive.runDriver [Wp.Drive.Break.handle]
+def main : IO Unit := Wp.Drive.runDriver [Wp.Drive.Break.handle, Wp.Drive.Paginate.handle]
